@@ -228,8 +228,12 @@ Fixpoint fold_opt {A B} (f : A -> B -> option A) (l : list B) (a : A) : option A
 Definition set_defs (defs : fmap str) (l : list (str * str)) : fmap str :=
   fold_left (fun m kv => insert (fst kv) (snd kv) m) l defs.
 
+(* SDK v1 Validate(): the table name and every index name of the request have at least 3 characters *)
+Definition ct_names_ok (ct : create_input) : bool :=
+  v1_name_ok (ct_table ct) && forallb (fun d => v1_name_ok (id_name d)) (ct_gsi ct ++ ct_lsi ct).
+
 Definition create_table (c : client) (ct : create_input) : client * obs :=
-  if negb (v1_name_ok (ct_table ct)) then (c, err_obs InvalidParam)
+  if negb (ct_names_ok ct) then (c, err_obs InvalidParam)
   else if mem (ct_table ct) (c_tables c) then (c, err_obs InUse)
   else
     let defs := set_defs [] (ct_defs ct) in
@@ -272,7 +276,10 @@ Definition defs_ok (t : tbl) (defs : list (str * str)) : bool :=
 
 Definition update_table (c : client) (table : str) (defs : list (str * str)) (create : option index_def)
     (delete : option str) : client * obs :=
-  if negb (v1_name_ok table) then (c, err_obs InvalidParam)
+  (* SDK v1 Validate() comes first: table name, name of the index to create, name of the index to delete *)
+  if negb (v1_name_ok table && match create with Some d => v1_name_ok (id_name d) | None => true end
+                            && match delete with Some n => v1_name_ok n | None => true end)
+  then (c, err_obs InvalidParam)
   else match lookup table (c_tables c) with
   | None => (c, err_obs NotFound)
   | Some t =>
@@ -284,15 +291,12 @@ Definition update_table (c : client) (table : str) (defs : list (str * str)) (cr
         match create with
         | None => (t1, None)
         | Some d =>
-            if (match flavour with V1 => negb (Nat.leb 3 (List.length (id_name d))) | V2 => false end)
-            then (t, Some InvalidParam)
-            else match add_global_index t1 ppr d with
-                 | Some t2 => (t2, None)
-                 | None => (t1, Some Validation)
-                 end
+            match add_global_index t1 ppr d with
+            | Some t2 => (t2, None)
+            | None => (t1, Some Validation)
+            end
         end in
       match r1 with
-      | (t2, Some InvalidParam) => (c, err_obs InvalidParam)
       | (t2, Some e) => (set_table c t2, err_obs e)
       | (t2, None) =>
           match delete with
